@@ -205,6 +205,50 @@ class World(object):
             return None
 
 
+class _ModuleShim(object):
+    """The module-level functions of phylib.utils.event (the global emitter), looked up at call time."""
+
+    def __getattr__(self, name):
+        import phylib.utils.event as evm
+        return getattr(evm, name)
+
+
+class ModuleWorld(World):
+    """The same world on the module-level route: event.connect / emit / unconnect / reset / silent /
+    set_silent all act on one global emitter."""
+
+    def __init__(self):
+        World.__init__(self)
+        self.em = _ModuleShim()
+        self.em.reset()
+        self.em.set_silent(False)
+
+
+MODULE_ALPHABET = [('connect', 'f', None, 'c0', 'explicit'), ('connect', 'f', None, 'c1', 'partial'),
+                   ('unconnect_cb', 'c0'), ('reset',), ('set_silent', True), ('set_silent', False),
+                   ('emit', 'f', 'none', False), ('emit', 'f', 'A', False)]
+
+
+def run_module_route(case, acc, order):
+    hist = case['hist']
+    w, ref = ModuleWorld(), RefBus()
+    acc.state()
+    try:
+        for i, evt in enumerate(hist):
+            mismatch = w.apply(tuple(evt), ref)
+            acc.step(evt[0] == 'emit' and i > 0, 'module:' + evt[0])
+            if mismatch:
+                what, exp, got = mismatch
+                sig = '%s/bus-module-level/%s/%s' % (PROP, evt[0], what)
+                acc.violation(sig, core.make_record(PROP, 'bus-module', sig, case=case,
+                                                    trace=[list(e) for e in hist[:i + 1]], expected=exp,
+                                                    observed=got), len(hist))
+                break
+    finally:
+        w.em.reset()
+        w.em.set_silent(False)
+
+
 def enabled(ref, max_regs, styles):
     evs = []
     if len(ref.regs) < max_regs:
@@ -370,8 +414,12 @@ class ProgressWorld(object):
     def apply(self, op, ref):
         import contextlib
         import io
-        with contextlib.redirect_stdout(io.StringIO()):
-            return self._apply(op, ref)
+        buf = io.StringIO()
+        with contextlib.redirect_stdout(buf):
+            exp, got = self._apply(op, ref)
+        # the completion message is printed once per announcement too (counted in the captured output)
+        printed = buf.getvalue().count('done')
+        return exp, (got if printed == got else ('%d events, message printed %d times' % (got, printed)))
 
     def _apply(self, op, ref):
         del self.completes[:]
@@ -429,8 +477,8 @@ def expand_progress(key, hist, acc):
         ok = exp == got and w.pr.value == ref.value and w.pr.value_max == ref.vmax
         if not ok:
             prev = hist[-1][0] if hist else 'init'
-            what = 'missing-announcement' if got < exp else (
-                'extra-announcement' if got > exp else 'value-or-max')
+            what = 'message-count' if isinstance(got, str) else ('missing-announcement' if got < exp else (
+                'extra-announcement' if got > exp else 'value-or-max'))
             sig = '%s/progress/%s-after-%s/%s' % (PROP, op[0], prev, what)
             acc.violation(sig, core.make_record(
                 PROP, 'progress', sig, trace=list(hist) + [list(op)],
@@ -504,9 +552,9 @@ def _replay_progress_node(case, acc, order):
     w.close()
     acc.step(bool(announced), 'tla-node')
     if got != int(announced):
-        sig = '%s/progress-tla/%s/%s' % (PROP, hist[-1][0],
+        sig = '%s/progress-tla/%s/%s' % (PROP, hist[-1][0], 'message-count' if isinstance(got, str) else (
                                          'missing-announcement' if got < announced else
-                                         'extra-announcement')
+                                         'extra-announcement'))
         acc.violation(sig, core.make_record(PROP, 'progress-tla', sig, case=case, trace=hist,
                                             expected={'model_announced': bool(announced)},
                                             observed={'complete_events': got}), len(hist))
@@ -553,6 +601,11 @@ def explore(ctx):
                             chunk=8)
     ctx.exhaustive = ctx.exhaustive and fix2
     tla_progress(ctx)
+    # the module-level route (one global emitter): every history of length <= 4 over a small alphabet
+    L = 5 if ctx.thorough else 4
+    cases = [{'hist': [list(e) for e in h]} for n_ in range(2, L + 1)
+             for h in itertools.product(MODULE_ALPHABET, repeat=n_) if h[-1][0] == 'emit']
+    ctx.run_cases(run_module_route, cases, chunk=64, sweep='19a-module-level-route')
     ctx.bounds = {'bus': {'events': EVENTS, 'senders': SENDERS, 'filters': FILTERS, 'callbacks': LABELS,
                           'styles': STYLES, 'max_registrations': 3, 'silent_depth': 2,
                           'all_styles_below_list_length': _CFG['all_styles_upto']},
@@ -578,6 +631,8 @@ def replay(record):
     elif record['subcheck'] == 'progress':
         hist = [tuple(e) for e in record['trace']]
         expand_one(hist, acc, build_progress, 'progress')
+    elif record['subcheck'] == 'bus-module':
+        run_module_route(record['case'], acc, 0)
     else:
         _replay_progress_node(record['case'], acc, 0)
     return [dict(v['record'], signature=s) for s, v in acc.violations.items()]
